@@ -1,4 +1,5 @@
 import Enc.Lemmas.Proto
+import Enc.Lemmas.ProtoVarint
 /-!
 # C03 — proto: Unmarshal(Marshal(v)) == v and Size(v) == len(Marshal(v))
 
@@ -29,6 +30,16 @@ theorem zigzag_decode_encode (v : BitVec 64) : decodeZigZag64 (encodeZigZag64 v)
   Lemmas.Proto.zigzag_roundtrip v
 theorem zigzag_encode_decode (u : BitVec 64) : encodeZigZag64 (decodeZigZag64 u) = u :=
   Lemmas.Proto.zigzag_roundtrip' u
+
+/-- decodeVarint ∘ encodeVarint = id, for every 64-bit value and whatever bytes follow (the 10-byte overflow rule
+`i > 9 ∨ i = 9 ∧ c > 1` never rejects an encoder output) -/
+theorem varint_decode_encode (v : BitVec 64) (rest : Bytes) :
+    decodeVarint (encodeVarint v ++ rest) = .ok (v, sizeOfVarint v) :=
+  Lemmas.ProtoVarint.decode_encode_varint v rest
+
+/-- a varint has between 1 and 10 bytes -/
+theorem varint_size_bounds (v : BitVec 64) : 1 ≤ sizeOfVarint v ∧ sizeOfVarint v ≤ 10 :=
+  ⟨Lemmas.ProtoVarint.sizeOfVarint_pos v, Lemmas.ProtoVarint.sizeOfVarint_le v⟩
 
 /-! the theorems above are unconditional (no hypotheses to satisfy); a concrete instance for the reader:
 `struct{A int32; B []bool}{5, {false,true}}` → 08 05 10 00 10 01 -/
